@@ -68,6 +68,16 @@ def gen_case(rng, idx):
             ops.append("get %d %d" % (t, rng.below(NKEYS)))
             ops.append("set %d %d %d" % (t, rng.below(NKEYS), fresh()))
             ops.append("exit %d" % t)
+    if rng.chance(1, 3):
+        # a second library lifetime: the key table is re-initialised in place (myth_init after myth_fini) while keys
+        # of the first lifetime were never deleted; keys created now, with and without destructors, reuse their cells
+        ops.append("reinit")
+        n2 = 2 + rng.below(30)
+        for _ in range(n2):
+            ops.append("create %d" % (-1 if rng.chance(1, 2) else rng.below(8)))
+        for _ in range(3 + rng.below(6)):
+            ops.append("set 0 %d %d" % (rng.below(n2), fresh()))
+        ops.append("exit 0")
     return ops
 
 
@@ -126,6 +136,10 @@ def oracle(ops, outs, crash, want):
                 live[k] = True
                 dtor[k] = None if d < 0 else d % 8
                 nlive += 1
+        elif w[0] == "reinit":
+            if out != "0":
+                bad.append(("C10", "op %d reinit answered %s" % (i, out)))
+            live, dtor, nlive = {}, {}, 0
         elif w[0] == "delete":
             k = int(w[1])
             if 0 <= k < NKEYS and live.get(k):
@@ -193,7 +207,7 @@ def campaign(res, want, ncases, corpus_dir):
         cases.append(gen_case(rng, i))
     seen = set()
     nontriv = 0
-    hist = {"set": 0, "get": 0, "create": 0, "delete": 0, "exit": 0}
+    hist = {"set": 0, "get": 0, "create": 0, "delete": 0, "exit": 0, "reinit": 0}
     kinds = {"key>=16": 0, "key>=256": 0, "invalid-key": 0, "null-value": 0, "exhaustion": 0}
     disagreements = 0
     first_diff = None
